@@ -29,6 +29,12 @@ def parse_meta(path):
 def run_groups(groups, pid, repo, work, tier, only=None):
     results = []
     scratch = scratch_copy(repo, work, "kani")
+    # Kani writes its per-harness artefacts under the (shared, cached) target directory by harness name: two checks running at
+    # the same time would read each other's results.  One Kani run at a time per machine.
+    import fcntl
+    os.makedirs(os.path.join(ROOT, ".cache"), exist_ok=True)
+    lock = open(os.path.join(ROOT, ".cache", "kani.lock"), "w")
+    fcntl.flock(lock, fcntl.LOCK_EX)
     try:
         for g in groups:
             cfg = registry.KANI_GROUPS[g]
@@ -37,6 +43,8 @@ def run_groups(groups, pid, repo, work, tier, only=None):
             results.append(_run_group(g, pid, scratch, tier, only))
     finally:
         shutil.rmtree(scratch, ignore_errors=True)
+        fcntl.flock(lock, fcntl.LOCK_UN)
+        lock.close()
     return results
 
 
